@@ -76,6 +76,8 @@ register(PropertySpec(
              "a lookup that binds a key to a value nothing is stored under is still answered from the entries that leave the key open (rows stored under partial bindings are reported as covered)"),
         Rule("REPLAY-DEDUP", _lazy("cacheidx", "rule_replay_dedup"), 2,
              "rows replayed from a result cache are dropped only when they are duplicates (a false row is needed by an enclosing or_), and treated like freshly evaluated rows"),
+        Rule("REPLAY-FALSE-ASKED", _lazy("cacheidx", "rule_replay_false_asked"), 5,
+             "a replay from a result cache hands false rows on only to an evaluation that asked for them (the cache also holds the false rows of an evaluation that did)"),
     ],
     explanation="Decides the clause 'the condition vocabulary denotes the ordinary Python operator': the node each "
                 "public comparison/membership entry constructs (arguments mapped to dataclass fields through the MRO "
@@ -254,7 +256,7 @@ register(PropertySpec(
              "(shared with C20) asking whether a binding is covered does not mark it covered (a sub-query evaluated alone would hide its false rows from a later enclosing query)"),
         Rule("RULE-ON-ENTER", _lazy("ruletree", "rule_rule_on_enter"), 2,
              "a query is flagged as a rule both when it is written inside a rule block and when a rule block is opened on it"),
-        Rule("SHARED-TAIL", _lazy("lazy", "rule_shared_tail"), 4,
+        Rule("SHARED-TAIL", _lazy("lazy", "rule_shared_tail"), 5,
              "an iteration over a lazily consumed domain is handed what other live iterations pulled from the shared source"),
         Rule("SOURCE-NOT-DELEGATED", _lazy("lazy", "rule_source_not_delegated"), 1,
              "an iteration over a lazily consumed domain does not delegate to the shared one-shot source (closing the iteration would close the source)"),
@@ -264,6 +266,8 @@ register(PropertySpec(
              "the registry-backed domain of a variable does not survive from one evaluation to the next"),
         Rule("INSERT-RETRIEVABLE", _lazy("cacheidx", "rule_coverage_only_if_stored"), 1,
              "an index without keys (a comparison between two constants) records no coverage: later evaluations are not answered from an empty index"),
+        Rule("REPLAY-FALSE-ASKED", _lazy("cacheidx", "rule_replay_false_asked"), 5,
+             "a replay from a result cache hands false rows on only to an evaluation that asked for them (the cache also holds the false rows of an evaluation that did)"),
     ],
     explanation="History independence is absence of residue on the shared expression nodes. Decided: where residue is "
                 "written (discovered mechanically from dataclass fields and mutation sites reachable from evaluation "
@@ -465,6 +469,8 @@ register(PropertySpec(
              "only the confirmed builders hand a supplied domain to a Variable; anywhere else the domain is filtered by the variable's type first"),
         Rule("MEMO-ON-PULL", _lazy("lazy", "rule_memo_on_pull"), 4,
              "the supplied domain is wrapped lazily, every member of it, and every member pulled is memoised before it is handed out"),
+        Rule("SHARED-TAIL", _lazy("lazy", "rule_shared_tail"), 5,
+             "an outer and a nested term over one pool variable iterate the same lazily consumed domain: each is handed what the other pulled"),
     ],
     explanation="Decides the construction-time clauses: positional binding re-implemented by the library agrees with "
                 "Python's (finite abstract evaluation of the loop over scenario argument lists), the type filter uses "
@@ -577,6 +583,8 @@ register(PropertySpec(
              "the coverage record of an insert is a copy of the binding, not the caller's dict"),
         Rule("RETRIEVE-MISS-WILDCARD", _lazy("cacheidx", "rule_retrieve_miss_wildcard"), 1,
              "a lookup that binds a key to a value nothing is stored under is still answered from the entries that leave the key open (rows stored under partial bindings are reported as covered)"),
+        Rule("REPLAY-FALSE-ASKED", _lazy("cacheidx", "rule_replay_false_asked"), 5,
+             "a replay from a result cache hands false rows on only to an evaluation that asked for them (the cache also holds the false rows of an evaluation that did)"),
     ],
     explanation="Decides that the runtime switch governs reads and writes consistently: the asymmetric state (reads "
                 "unguarded, writes guarded) changes results because an empty lookup marks everything covered. Not "
@@ -683,6 +691,8 @@ register(PropertySpec(
              "the truth flag of an operand that was evaluated as a value is not consulted (falsy values are values)"),
         Rule("INSERT-RETRIEVABLE", _lazy("cacheidx", "rule_insert_retrievable"), 2,
              "what insert() records as covered is retrievable (a row that binds none of the keys - a for_all on the right of and_ whose condition mentions only the universal variable - included)"),
+        Rule("REPLAY-FALSE-ASKED", _lazy("cacheidx", "rule_replay_false_asked"), 5,
+             "a replay from a result cache hands false rows on only to an evaluation that asked for them (the cache also holds the false rows of an evaluation that did)"),
     ],
     explanation="Universal quantification is implemented as a running intersection; that the accumulated set can only "
                 "shrink, is seeded once and is emptied by a value with no satisfying binding is a typestate property of "
@@ -779,7 +789,7 @@ register(PropertySpec(
              "a conjunction reports its own truth to its parent as unknown when all that is known is that one operand is true"),
         Rule("COVERAGE-SUBSUMPTION", _lazy("cacheidx", "rule_coverage_subsumption"), 4,
              "a stored binding covers a lookup exactly when it is contained in it: per-key test evaluated for same / other / missing"),
-        Rule("SHARED-TAIL", _lazy("lazy", "rule_shared_tail"), 4,
+        Rule("SHARED-TAIL", _lazy("lazy", "rule_shared_tail"), 5,
              "an iteration over a lazily consumed domain is handed what other live iterations pulled from the shared source"),
         Rule("CACHED-POSITION-RESET", _lazy("history", "rule_cached_position_reset"), 1,
              "the memo of the position-dependent duplicate-suppression keys is dropped, for the class of the node being reset, with the per-evaluation state"),
@@ -797,6 +807,8 @@ register(PropertySpec(
              "the operators that evaluate shareable operands tell the operand which of its parents is evaluating it, on every path to the evaluation"),
         Rule("INSERT-RETRIEVABLE", _lazy("cacheidx", "rule_coverage_only_if_stored"), 1,
              "an index without keys (a comparison between two constants) records no coverage: later evaluations are not answered from an empty index"),
+        Rule("REPLAY-FALSE-ASKED", _lazy("cacheidx", "rule_replay_false_asked"), 5,
+             "a replay from a result cache hands false rows on only to an evaluation that asked for them (the cache also holds the false rows of an evaluation that did)"),
     ],
     explanation="An implicit join is a join only if every operator threads the binding it received to its operands and "
                 "keeps everything its operands bound. Both are provenance facts on the evaluation call sites and the "
@@ -883,7 +895,7 @@ register(PropertySpec(
              "(shared with C04) that reset reaches every node of the tree"),
         Rule("CLEAR-COMPLETE", _lazy("cacheidx", "rule_clear_complete"), 4,
              "(shared with C20) clearing an index (after an abandoned evaluation; a class's registry store) empties every store and withdraws the coverage marks"),
-        Rule("SHARED-TAIL", _lazy("lazy", "rule_shared_tail"), 4,
+        Rule("SHARED-TAIL", _lazy("lazy", "rule_shared_tail"), 5,
              "an iteration over a lazily consumed domain is handed what other live iterations pulled from the shared source"),
         Rule("SOURCE-NOT-DELEGATED", _lazy("lazy", "rule_source_not_delegated"), 1,
              "an iteration over a lazily consumed domain does not delegate to the shared one-shot source (closing the iteration would close the source)"),
@@ -935,7 +947,7 @@ register(PropertySpec(
              "a symbolic method call applies the method with all the positional and keyword arguments it was built with"),
         Rule("ROW-FRESH", _lazy("extra", "rule_row_fresh"), 1,
              "(shared with C02) incl. the exception for Union.evaluate_right, which stands only while or_ never builds a Union"),
-        Rule("SHARED-TAIL", _lazy("lazy", "rule_shared_tail"), 4,
+        Rule("SHARED-TAIL", _lazy("lazy", "rule_shared_tail"), 5,
              "an iteration over a lazily consumed domain is handed what other live iterations pulled from the shared source"),
         Rule("CACHED-POSITION-RESET", _lazy("history", "rule_cached_position_reset"), 1,
              "the memo of the position-dependent duplicate-suppression keys is dropped, for the class of the node being reset, with the per-evaluation state"),
